@@ -14,6 +14,9 @@ import (
 
 	"github.com/google/badwolf/bql/grammar"
 	"github.com/google/badwolf/bql/lexer"
+	"github.com/google/badwolf/triple/literal"
+	"github.com/google/badwolf/triple/node"
+	"github.com/google/badwolf/triple/predicate"
 )
 
 // runeField renders one rune with Go's own classification:
@@ -204,6 +207,59 @@ var printedForms = []string{`/u<a>`, `/t/u<a b>`, `/_<x>`, `_:b1`, `?x`, `?long_
 	`"p"@[2006-01-02T15:04:05+01:00]`, `"p"@[,]`, `"p"@[2006-01-02T15:04:05Z,2007-01-02T15:04:05Z]`, `"é@"@[]`,
 	`"true"^^type:bool`, `"-1"^^type:int64`, `"1.5e+07"^^type:float64`, `"a b"^^type:text`, `"[1 2 3]"^^type:blob`, `""^^type:text`}
 
+func generatedPrintedForms(r *rng, n int) []string {
+	pieces := []string{"a", "b", " ", "@", "[", "]", "^", ":", "<", ">", "/", "?", "_", ",", ";", "é", ".", "T", "1", "-", "type", "@[", "^^type:", "]/", "@[]", "as", "{", "}", "(", "="}
+	word := func(ps []string) string {
+		var b strings.Builder
+		for i := 0; i < r.intn(5); i++ {
+			b.WriteString(ps[r.intn(len(ps))])
+		}
+		return b.String()
+	}
+	nodeSafe := []string{"a", "b", " ", "@", "[", "]", "^", ":", "/", "?", "_", ",", ";", "é", ".", "1", "-", "\"", "{", "="}
+	var out []string
+	seen := map[string]bool{}
+	for len(out) < n {
+		var s string
+		switch r.intn(6) {
+		case 0:
+			if l, err := literal.DefaultBuilder().Build(literal.Text, word(pieces)); err == nil {
+				s = l.String()
+			}
+		case 1:
+			if p, err := predicate.NewImmutable(word(pieces) + "p"); err == nil {
+				s = p.String()
+			}
+		case 2:
+			if p, err := predicate.NewTemporal(word(pieces)+"p", []time.Time{qt0, qt1, qt2, qt0.In(time.FixedZone("", -7*3600))}[r.intn(4)]); err == nil {
+				s = p.String()
+			}
+		case 3:
+			ty, e1 := node.NewType("/t" + strings.ReplaceAll(word([]string{"a", "b", "/u", "1", "_", "-", "."}), "//", "/"))
+			id, e2 := node.NewID(word(nodeSafe) + "x")
+			if e1 == nil && e2 == nil {
+				s = node.NewNode(ty, id).String()
+			}
+		case 4:
+			if l, err := literal.DefaultBuilder().Build(literal.Blob, []byte(word(pieces))); err == nil {
+				s = l.String()
+			}
+		default:
+			s = fmt.Sprintf(`"%sp"@[%s,%s]`, word([]string{"a", " ", "@", "[", "]", "é", ","}), []string{"", fmtT(qt0)}[r.intn(2)], []string{"", fmtT(qt2)}[r.intn(2)])
+		}
+		if s == "" || seen[s] {
+			if len(seen) > 50*n {
+				break
+			}
+			seen[s+fmt.Sprint(len(seen))] = true
+			continue
+		}
+		seen[s] = true
+		out = append(out, s)
+	}
+	return out
+}
+
 func cmdLex(args []string) error {
 	fs := flag.NewFlagSet("lex", flag.ContinueOnError)
 	maxLen := fs.Int("maxlen", 4, "exhaustive strings up to this length over the lexer alphabet")
@@ -274,8 +330,9 @@ func cmdLex(args []string) error {
 		a := `"1"^^type:` + ty
 		g.meta("case", a, `"1"^^type:`+randomCase(r, ty), sameKinds)
 	}
-	// 3. printed forms are one token carrying exactly that text
-	for _, pf := range printedForms {
+	// 3. printed forms are one token carrying exactly that text: the fixed list and the printed forms of
+	// values built through the constructors from pieces that matter to the lexer (no double quote inside)
+	for _, pf := range append(append([]string{}, printedForms...), generatedPrintedForms(r, *n/6)...) {
 		for _, ctx := range [][2]string{{"", ""}, {"select ", " ;"}, {"{ ", " }"}, {"  ", "\n"}} {
 			in := ctx[0] + pf + ctx[1]
 			fmt.Fprintf(g.ops, "M printed %s %s\n", hx(pf), hx(in))
